@@ -58,14 +58,17 @@ theorem keys_map (ks : List Int) (enc : Int → α) :
   simp [List.map_map, Function.comp_def]
 
 /-- **`bsgs_regroup`**: for EVERY baby-step size `N1 > 0` (hence every
-    `LogBabyStepGiantStepRatio`), every non-empty set `ks` of distinct normalised diagonal indices,
+    `LogBabyStepGiantStepRatio`), every list `ks` of normalised diagonal indices (the empty one included: the zero matrix),
     `MultiplyByDiagMatrixBSGS` applied to the diagonals pre-rotated as `Encode` does returns
     `Σ_{d ∈ ks} diag_d ⊙ rot_d v`. -/
 theorem evalBSGS_eq (L : SlotLaws O n) (N1 : Nat) (hN : 0 < N1) (ks : List Int)
-    (hr : ∀ k ∈ ks, 0 ≤ k ∧ k < (n : Int)) (hne : ks ≠ [])
+    (hr : ∀ k ∈ ks, 0 ≤ k ∧ k < (n : Int))
     (diag : Int → α) (v : α) :
     evalBSGS O n N1 (ks.map fun k => (k, preRot O n N1 k (diag k))) v
       = .val (diagSum O ks diag v) := by
+  by_cases hne : ks = []
+  · subst hne
+    simp [evalBSGS, bsgsIndex, sortU, accum, diagSum, sumL]
   let enc : Int → α := fun k => preRot O n N1 k (diag k)
   have henc : enc = fun k => preRot O n N1 k (diag k) := rfl
   change evalBSGS O n N1 (ks.map fun k => (k, enc k)) v = _
@@ -170,10 +173,10 @@ theorem sortU_perm (l : List Int) (h : l.Nodup) : (sortU l).Perm l := by
     have hx : x ∉ sortU xs := fun e => h.1 ((mem_sortU x xs).1 e)
     exact (insertU_perm x _ hx).trans (List.Perm.cons x (ih h.2))
 
-/-- `MultiplyByDiagMatrix` (naive) returns `Σ_{d ∈ ks} diag_d ⊙ rot_d v` as soon as the transformation
-    has at least one diagonal other than the main one. -/
+/-- `MultiplyByDiagMatrix` (naive) returns `Σ_{d ∈ ks} diag_d ⊙ rot_d v` for EVERY list of distinct
+    normalised indices: also the main diagonal alone, also the empty list (zero matrix). -/
 theorem evalNaive_eq (L : SlotLaws O n) (ks : List Int)
-    (hr : ∀ k ∈ ks, 0 ≤ k ∧ k < (n : Int)) (hnd : ks.Nodup) (hnz : ∃ k ∈ ks, k ≠ 0)
+    (hr : ∀ k ∈ ks, 0 ≤ k ∧ k < (n : Int)) (hnd : ks.Nodup)
     (diag : Int → α) (v : α) :
     evalNaive O n (ks.map fun k => (k, diag k)) v = .val (diagSum O ks diag v) := by
   let F : Int → α := fun d => O.mul (diag d) (O.rot d v)
@@ -191,37 +194,30 @@ theorem evalNaive_eq (L : SlotLaws O n) (ks : List Int)
   simp only [keys_map]
   rw [hsum]
   have hmem : ∀ k, k ∈ sortU ks ↔ k ∈ ks := fun k => mem_sortU k ks
-  have hsorted := sortU_sorted ks
-  obtain ⟨kz, hkz, hkz0⟩ := hnz
   cases hK : sortU ks with
-  | nil => rw [hK] at hmem; exact absurd ((hmem kz).2 hkz) (by simp)
+  | nil => simp [sumL]
   | cons k0 rest =>
-    rw [hK] at hmem hsorted
+    rw [hK] at hmem
     simp only
     by_cases h0 : k0 = 0
     · subst h0
       have hrest : ∀ k ∈ rest, k ∈ ks := fun k hk => (hmem k).1 (List.mem_cons_of_mem _ hk)
-      have hne : rest.map F ≠ [] := by
-        have : kz ∈ rest := by
-          rcases List.mem_cons.1 ((hmem kz).2 hkz) with e | e
-          · exact absurd e hkz0
-          · exact e
-        intro h; rw [List.map_eq_nil_iff] at h; rw [h] at this; simp at this
-      simp only [beq_self_eq_true, if_true, hterms rest hrest, accum_eq L _ hne]
-      rw [lookupI_map ks diag 0 ((hmem 0).1 (List.mem_cons_self ..))]
-      simp only [Option.map_some, List.map_cons, sumL_cons]
-      rw [L.add_comm]
-      simp only [F, L.rot_zero]
+      have h0mem : lookupI 0 (ks.map fun k => (k, diag k)) = some (diag 0) :=
+        lookupI_map ks diag 0 ((hmem 0).1 (List.mem_cons_self ..))
+      simp only [beq_self_eq_true, if_true, hterms rest hrest, h0mem, Option.map_some]
+      by_cases hre : rest = []
+      · subst hre
+        simp only [List.map_nil, accum, Option.getD_some, List.map_cons, sumL_cons, F, L.rot_zero]
+        rw [show sumL O ([] : List α) = O.zero from rfl, L.add_zero]
+      · have hne : rest.map F ≠ [] := by
+          intro h; rw [List.map_eq_nil_iff] at h; exact hre h
+        simp only [accum_eq L _ hne, List.map_cons, sumL_cons]
+        rw [L.add_comm]
+        simp only [F, L.rot_zero]
     · have hall : ∀ k ∈ k0 :: rest, k ∈ ks := fun k hk => (hmem k).1 hk
       have hne : (k0 :: rest).map F ≠ [] := by simp
       have hb : (k0 == 0) = false := by simpa using h0
       simp only [hb, Bool.false_eq_true, if_false, hterms (k0 :: rest) hall, accum_eq L _ hne]
-
-/-- the one-diagonal case the naive algorithm gets wrong: only the main diagonal.  The loop over the
-    non-zero keys does not run, `opOut` and the pool buffer are reduced and mod-downed unassigned. -/
-theorem evalNaive_only_main_diagonal (O : SlotOps α) (n : Nat) (d v : α) :
-    evalNaive O n [(0, d)] v = .stale (some (O.mul d v)) := by
-  simp [evalNaive, sortU, insertU, lookupI, accum]
 
 /-- `Encode` (BSGS branch) stores the diagonals pre-rotated -/
 theorem encode_bsgs (O : SlotOps α) (n N1 : Nat) (hN : N1 ≠ 0) (keys : List Int)
